@@ -1,5 +1,6 @@
 import ObiVerif.Model.Pcr
 import ObiVerif.Model.PcrAnnot
+import ObiVerif.Model.PcrSeqBuf
 import ObiVerif.Driver.Util
 /-! line protocol for C11
 
@@ -17,7 +18,13 @@ cli  <fwd> <rev> <e> <min> <max> <delta> <full> [<circ> <frag>] <tpl>      (defa
        -> the amplicons d/fragment/from+1 (in the template)/amplicon/…, sorted (options of CLIPCR; with frag = 1 the
           fragments are cut with the parameters of CLIPCR)
 ```
-byte strings in hex. -/
+byte strings in hex.
+
+```
+seqbuf <circ> <tpl>[,<tpl>...]
+       -> per template ("|") seqlen/circular/datsiz/<the datsiz codes of the C data buffer, in hex ("-" = none)> after
+          MakeApatSequence(template, circ, <the structure recycled from the previous template>) (`recycleChain`)
+``` -/
 namespace ObiVerif.Driver.C11
 open ObiVerif ObiVerif.Apat ObiVerif.Pcr ObiVerif.Driver
 
@@ -139,6 +146,12 @@ def run (line : String) : String :=
           | .ok per => s!"{names} {"|".intercalate (per.map fun cl => showList fw rv (tplAnnot 1) cl.2)}"
         | _, _ => "bad-op"
     | _, _, _, _, _, _, _, _, _, _, _ => "bad-op"
+  | ["seqbuf", circ, tpls] =>
+    match bool? circ, splitTpls tpls with
+    | some circ, some tpls =>
+      "|".intercalate ((recycleChain circ none (tpls.map fun t => t.map lowerByte)).map fun s =>
+        s!"{s.seqlen}/{s.circular}/{s.data.length}/{hex (s.data.map fun c => c.toUInt8)}")
+    | _, _ => "bad-op"
   | ["cli", fw, rv, e, mn, mx, delta, full, tpl] => runCli fw rv e mn mx delta full "0" "1" tpl
   | ["cli", fw, rv, e, mn, mx, delta, full, circ, frag, tpl] => runCli fw rv e mn mx delta full circ frag tpl
   | _ => "bad-op"
